@@ -2067,3 +2067,64 @@ def r8_11(rep):
     (`--no-size_t-is-usize --blocklist-type size_t`)."""
     import c09
     c09.r9_5(rep)
+
+
+@RULES.rule("R8.12", "the <stdint.h> exception for blocklisted types does not depend on whether any callback is registered", floor=1)
+def r8_12(rep):
+    """A blocklisted `uint32_t` is still spelled `u32`, so a struct holding it keeps its derives.  That exception has to apply
+    whenever no callback claims the type; making it the `parse_callbacks.is_empty()` branch means that registering ANY callback
+    (`--with-derive-custom 'Unrelated=Clone'`) strips `#[derive(Debug, Copy, Clone)]` from every struct with a blocklisted stdint
+    member."""
+    prog = rep.prog
+    b = rep.need(prog.fn("ir::context::BindgenContext::blocklisted_type_implements_trait"), "BindgenContext::blocklisted_type_implements_trait")
+    cs = [c for c in b.calls(lambda n: n["k"] == "MCall" and (n.get("callee") or n.get("resolved") or "").endswith("BindgenContext::is_stdint_type"))]
+    rep.need(cs, "the is_stdint_type test in blocklisted_type_implements_trait")
+    for c in cs:
+        dep = [g for pol, kind, g in b.guards(c, nested=True) if kind == "cond" and "parse_callbacks" in b.canon(g, 6) and "is_empty" in b.canon(g, 6)]
+        rep.check(not dep, "stdint-exception-independent-of-callbacks",
+                  "the stdint exception is applied whether or not callbacks are registered" if not dep else
+                  "the stdint exception is only reached when `parse_callbacks.is_empty()`: with any callback registered a blocklisted "
+                  "`uint32_t` member makes the containing struct lose every derive", b.loc(c))
+
+
+DERIVE_OPTION = {"DEBUG": "derive_debug", "DEFAULT": "derive_default", "HASH": "derive_hash", "PARTIAL_ORD": "derive_partialord",
+                 "ORD": "derive_ord", "PARTIAL_EQ": "derive_partialeq", "EQ": "derive_eq", "COPY": "derive_copy", "CLONE": "derive_copy"}
+
+
+@RULES.rule("R8.13", "every place that grants a derive consults the user's switch for that trait", floor=9)
+def r8_13(rep):
+    """`derives_of_item` grants a trait through `can_derive_<trait>` (which answers No when the option is off).  The short cut for
+    forward declarations in `CompInfo::codegen` grants Debug on its own and must ask the same questions: without them
+    `struct Fwd;` gets `#[derive(Debug)]` under `--no-derive-debug` and under `--no-debug Fwd`."""
+    prog = rep.prog
+    n = 0
+    for p, b in sorted(prog.bodies.items()):
+        if not p.startswith(("codegen::", "<")) or "codegen" not in p:
+            continue
+        for a in b.nodes:
+            if a["k"] != "AssignOp" or a["op"] not in ("|", "|="):
+                continue
+            src = b.canon(a["r"], 4)
+            m = re.search(r"DerivableTraits::([A-Z_]+)", src)
+            if not m or "DerivableTraits" not in (b.ty(a["l"]) or ""):
+                continue
+            tr = m.group(1)
+            n += 1
+            opt = DERIVE_OPTION.get(tr)
+            asked = []
+            for pol, kind, g in b.guards(a):
+                if kind == "cond" and pol:
+                    s = b.canon(g, 8)
+                    if ("canderive" + tr.lower().replace("_", "")) in s.replace("_", "").lower() or (opt and ("BindgenOptions::" + opt) in s):
+                        asked.append("switch")
+                    if "no_%s_by_name" % tr.lower().split("_")[0] in s or "can_derive_" in s:
+                        asked.append("name")
+            ok = "switch" in asked
+            key = "grant:%s@%s" % (tr, short(b.path))
+            if tr == "CLONE":
+                # Clone rides on Copy: granted in the same branch
+                ok = ok or any("can_derive_copy" in b.canon(g, 8) for pol, kind, g in b.guards(a) if kind == "cond" and pol)
+            rep.check(ok, key, "granted under the trait's own can_derive / option test" if ok else
+                      "DerivableTraits::%s is granted without asking `can_derive_%s` or `options.%s`: the user's switch for the trait is ignored here"
+                      % (tr, tr.lower(), opt), b.loc(a))
+    rep.need(n >= 9, "`derivable_traits |= DerivableTraits::X` sites")
